@@ -31,6 +31,15 @@ def one_case(V, E, X):
     G = DiGraph(V=V, E=E)
     s0, i0 = snap(G), ids(G)
     obs = {'presentation': graph_sx(G)}      # read BEFORE anything is mutated through copies
+    obs['ctor'] = ('ok', gset(G))            # compared with the model's mk_graph on the ARGUMENTS (theorem C13_mk_graph)
+    # the two collections may be given in any iterable form, one-shot iterators included (the constructor reads each once)
+    forms = []
+    for nm, mkV, mkE in (('tuples', tuple, tuple), ('iterators', iter, iter), ('generator of lists', list, lambda e: (list(x) for x in e)),
+                         ('zip', list, lambda e: zip([a for a, _ in e], [b for _, b in e])), ('sets', set, set)):
+        r0 = call(lambda: DiGraph(V=mkV(list(V)), E=mkE(list(E))))
+        if r0[0] != 'ok' or gset(r0[1]) != obs['ctor'][1]:
+            forms.append('%s: %s' % (nm, r0[1] if r0[0] != 'ok' else gset(r0[1])))
+    obs['ctor_forms'] = forms
     r = call(lambda: G.get_reachable_set_from(list(X)))
     obs['reach'] = ('ok', sorted(r[1])) if r[0] == 'ok' else r
     r = call(lambda: G.get_reversed_graph())
@@ -326,19 +335,22 @@ def run(R):
     for (V, E, X) in cases:
         G, obs = one_case(V, E, X)
         g = obs.pop('presentation')
-        cmds += [['reach', g, X], ['rev', g], ['sub', g, X], ['clone', g]]
+        cmds += [['reach', g, X], ['rev', g], ['sub', g, X], ['clone', g], ['mkg', list(V), [list(e) for e in E]]]
         meta.append((V, E, X, obs, g))
     outs = model_batch_parallel(cmds)
     for i, (V, E, X, obs, g) in enumerate(meta):
         R.evaluations += 1
-        o_reach, o_rev, o_sub, o_clone = outs[4 * i:4 * i + 4]
+        o_reach, o_rev, o_sub, o_clone, o_mkg = outs[5 * i:5 * i + 5]
         m = {}
         m['reach'] = ('ok', sorted(ints(o_reach[1]))) if o_reach[0] == 'ok' else ('err', o_reach[1])
         m['rev'] = ('ok', mset(o_rev))
         m['sub'] = ('ok', mset(o_sub))
         m['clone'] = ('ok', mset(o_clone))
         m['revrev'] = ('ok', mset(g))   # theorem reversed_involutive: same nodes and edges as g
-        bad = [k for k in ('reach', 'rev', 'sub', 'clone', 'revrev') if tuple(obs.get(k, ())) != tuple(m[k])]
+        m['ctor'] = ('ok', mset(o_mkg))
+        bad = [k for k in ('ctor', 'reach', 'rev', 'sub', 'clone', 'revrev') if tuple(obs.get(k, ())) != tuple(m[k])]
+        if obs.get('ctor_forms'):
+            bad.append('constructor argument forms: ' + '; '.join(obs['ctor_forms']))
         if obs.get('clone_shares') or obs.get('rev_shares'):
             bad.append('aliasing')
         if not obs['unchanged']:
@@ -381,5 +393,5 @@ def replay(R, data):
     m_reach = ('ok', sorted(ints(o[0][1]))) if o[0][0] == 'ok' else ('err', o[0][1])
     if tuple(obs['reach']) != m_reach or tuple(obs['rev']) != ('ok', mset(o[1])) or tuple(obs['sub']) != ('ok', mset(o[2])) \
             or tuple(obs['clone']) != ('ok', mset(o[3])) or not obs['unchanged'] or obs.get('clone_shares') \
-            or obs.get('argument_forms') or obs.get('results_independent'):
+            or obs.get('argument_forms') or obs.get('results_independent') or obs.get('ctor_forms'):
         R.violation('replayed', d)
